@@ -387,7 +387,9 @@ var kinds = []string{"order", "bound-method", "valkind", "closure-pair", "wrappe
 
 var pairs = [][2]string{{"7", "8"}, {"300", "65580"}, {"256", "257"}, {"65535", "65536"}, {"\"a\"", "\"b\""}, {"(1, 2)", "(1, 3)"}, {"[1, 300]", "[1, 301]"}, {"1.5", "2.5"}, {"None", "False"}, {"{\"k\": 1}", "{\"k\": 2}"}, {"b\"x\"", "b\"y\""}, {"12345678901234567890", "12345678901234567891"},
 	// integers around the widths of fixed-size encodings, and their two's-complement aliases
-	{"9223372036854775808", "-9223372036854775808"}, {"18446744073709551615", "-1"}, {"4294967296", "0"}, {"2147483648", "-2147483648"}, {"9223372036854775807", "9223372036854775808"}, {"340282366920938463463374607431768211456", "0"}}
+	{"9223372036854775808", "-9223372036854775808"}, {"18446744073709551615", "-1"}, {"4294967296", "0"}, {"2147483648", "-2147483648"}, {"9223372036854775807", "9223372036854775808"}, {"340282366920938463463374607431768211456", "0"},
+	// values of different types that the language calls equal
+	{"1", "1.0"}, {"[1, 2]", "[1.0, 2]"}, {"(0, 7)", "(0.0, 7)"}, {"{\"k\": 3}", "{\"k\": 3.0}"}, {"-0.0", "0.0"}, {"2", "2.0"}}
 
 func genItem(t *rapid.T, label string) Item {
 	k := rapid.SampledFrom(kinds).Draw(t, label)
